@@ -20,6 +20,21 @@ fn vmer_routes<K: Kmer, V: Vmer>(v: &V, s: &[u8], what: &str, n: &mut u64, bad: 
     let want = windows(s, k);
     let it: Vec<S> = v.iter_kmers::<K>().map(|x| kstr(&x)).collect();
     chk!(it == want, "{} K={} len {}: iter_kmers yields {} items (want {}), or wrong content/order", what, k, len, it.len(), want.len());
+    // every std adaptor an iterator may specialise (nth, skip, step_by, last, count) agrees with plain iteration
+    if len <= 12 || len % 16 <= 1 {
+        *n += 2;
+        if let Some(m) = vglue::iterator_laws_by(&format!("{} K={} len {} iter_kmers", what, k, len), &|| v.iter_kmers::<K>(), &|x: K| kstr(&x), &want) {
+            if bad.len() < 3 { bad.push(m); }
+        }
+        let exp_e: Vec<(S, u8)> = v.iter_kmer_exts::<K>(Exts::new(0x21)).map(|(x, e)| (kstr(&x), e.val)).collect();
+        if let Some(m) = vglue::iterator_laws_by(&format!("{} K={} len {} iter_kmer_exts", what, k, len), &|| v.iter_kmer_exts::<K>(Exts::new(0x21)), &|(x, e): (K, Exts)| (kstr(&x), e.val), &exp_e) {
+            if bad.len() < 3 { bad.push(m); }
+        }
+        let bases: Vec<u8> = s.to_vec();
+        if let Some(m) = vglue::iterator_laws(&format!("{} len {} Mer::iter", what, len), &|| v.iter(), &bases) {
+            if bad.len() < 3 { bad.push(m); }
+        }
+    }
     if len >= k {
         for p in 0..=len - k {
             chk!(kstr(&v.get_kmer::<K>(p)) == want[p], "{} K={} len {}: get_kmer({})", what, k, len, p);
@@ -138,7 +153,7 @@ pub fn check(tier: &str, rep: &mut Report) {
     rep.exhaustive = false;
     rep.sample(json!({"type": "Kmer16", "seq": "counter pattern of length 97", "routes": "DnaString, DnaBytes, DnaSlice, slice fwd/rc at offsets {0,1,31,32,33}, Lmer2..6; get_kmer at every position, iter_kmers, first/last/term/both_term, kmers_from_bytes/ascii, iter_kmer_exts x 6 boundary sets"}));
     rep.sample(json!({"type": "Kmer3", "seq": "ACG"}));
-    rep.rule = "containers {DnaString, DnaBytes, DnaSlice, DnaStringSlice forward and reverse-complemented at backing offsets {0,1,2,15,16,30..34} (thorough: 0..34), Lmer<[u64;1..6]>} x all 20 k-mer types x sequences {ALL strings of length 0..7 (thorough 9); lengths up to 134: counter, LCG and 1-hot patterns on A and T backgrounds (thorough: hot base at every position)} x every position: get_kmer, first/last/term/both_term_kmer, iter_kmers (count max(0,n-K+1), order), kmers_from_bytes/ascii, iter_kmer_exts with boundary sets {none, all, 4 single}; a state = (type, sequence), non-trivial = sequence spans >= 2 storage blocks".into();
+    rep.rule = "containers {DnaString, DnaBytes, DnaSlice, DnaStringSlice forward and reverse-complemented at backing offsets {0,1,2,15,16,30..34} (thorough: 0..34), Lmer<[u64;1..6]>} x all 20 k-mer types x sequences {ALL strings of length 0..7 (thorough 9); lengths up to 134: counter, LCG and 1-hot patterns on A and T backgrounds (thorough: hot base at every position)} x every position: get_kmer, first/last/term/both_term_kmer, iter_kmers (count max(0,n-K+1), order; nth/skip/step_by/last/count agree with plain iteration, also for iter_kmer_exts and the base iterator), kmers_from_bytes/ascii, iter_kmer_exts with boundary sets {none, all, 4 single}; a state = (type, sequence), non-trivial = sequence spans >= 2 storage blocks".into();
     rep.assumptions.push("content exhaustive only for length <= 7 (9); longer sequences use structured patterns that cross every block boundary with every K".into());
     rep.floor("sequences:all_strings_up_to_bound", 21845);
 }
